@@ -1,6 +1,7 @@
 import OnetVerif.Model.C19
 import OnetVerif.Proofs.C19Field
 import OnetVerif.Proofs.C19Stats
+import OnetVerif.Proofs.C19Net
 import Mathlib.Algebra.Order.Field.Rat
 import Mathlib.Algebra.Order.BigOperators.Group.List
 import OnetVerif.Shapes
@@ -141,12 +142,8 @@ theorem c19_perm_invariant (s : Stats κ K) (h : SortedKeys s.vals) (ms₁ ms₂
     ({ (Value.new : Value K) with store := (s.updates ms₂).storeAt k }) hst
   rw [this.1, this.2]
 
-/-- `Interleave parts out`: `out` is an arrival order of the measures that the reporting
-connections sent, connection i having sent `parts[i]` in that order -/
-inductive Interleave {μ : Type} : List (List μ) → List μ → Prop
-  | done (parts : List (List μ)) (h : ∀ p ∈ parts, p = []) : Interleave parts []
-  | step (pre post : List (List μ)) (x : μ) (rest out : List μ) :
-      Interleave (pre ++ rest :: post) out → Interleave (pre ++ (x :: rest) :: post) (x :: out)
+/- `Interleave parts out` (`Proofs/C19Net.lean`): `out` is an arrival order of the measures that the
+reporting connections sent, connection i having sent `parts[i]` in that order -/
 
 theorem interleave_perm {μ : Type} (parts : List (List μ)) (out : List μ) (h : Interleave parts out) :
     out.Perm parts.flatten := by
@@ -210,6 +207,62 @@ theorem c19_monitor_feed (m : Monitor κ α) (ms : List (Measure κ α)) :
   | cons x ms ih =>
     simp only [List.foldl_cons, ih, Monitor.update, Stats.feed, BucketStats.feed]
 
+/-! ### The monitor's network side (`Model/C19Net.lean`): connections, handler routines, `Listen` -/
+
+/-- **c19_listen_interleave** (any number type, every schedule): whenever a run of the monitor —
+accepts, client writes and hang-ups, decodes, hand-overs to the `Listen` loop, end-of-connection
+reports, in any order the code allows — ends with nothing left to deliver, the monitor has been
+updated with exactly the records the clients sent (end markers apart), each once, in an order that
+keeps every connection's own order: an interleaving of the connections' sequences. -/
+theorem c19_listen_interleave (isEnd : κ → Bool) (mon : Monitor κ α) (futures : List (List (Measure κ α)))
+    (acts : List Act) (n' : Net κ α) (h : (Net.start mon futures).run isEnd acts = some n')
+    (hdone : ∀ c ∈ n'.conns, c.remaining isEnd = []) :
+    ∃ out, n'.mon = out.foldl Monitor.update mon ∧ Interleave (futures.map (noEnd isEnd)) out := by
+  obtain ⟨out, h1, h2⟩ := run_interleave isEnd acts _ n' h hdone
+  refine ⟨out, h1, ?_⟩
+  have : (Net.start mon futures).conns.map (Conn.remaining isEnd) = futures.map (noEnd isEnd) := by
+    simp [Net.start, Conn.remaining, noEnd, Function.comp_def]
+  rw [← this]; exact h2
+
+/-- **c19_listen_nothing_stuck** (liveness at quiescence): when, after any schedule, no action is
+enabled any more, every client has written everything and hung up, every connection that was accepted
+has handed over all its records and has been taken off the list, and — if any was accepted — `Listen`
+has returned.  Only a connection that was never accepted can be left with undelivered records, and only
+because `Listen` had already returned (it returns as soon as every connection accepted so far has gone). -/
+theorem c19_listen_nothing_stuck (isEnd : κ → Bool) (mon : Monitor κ α) (futures : List (List (Measure κ α)))
+    (acts : List Act) (n' : Net κ α) (h : (Net.start mon futures).run isEnd acts = some n')
+    (hq : n'.canMove isEnd = false) :
+    (∀ c ∈ n'.conns, c.closed = true ∧ c.future = []) ∧
+    (∀ c ∈ n'.conns, c.accepted = true → c.gone = true ∧ c.remaining isEnd = []) ∧
+    (∀ c ∈ n'.conns, c.accepted = false → n'.finished = true) ∧
+    ((∃ c ∈ n'.conns, c.accepted = true) → n'.finished = true) :=
+  quiescent isEnd n' (run_wf isEnd acts _ n' (wf_init mon futures) h) hq
+
+/-- **c19_listen_terminates**: every action consumes weight, so no schedule is longer than the weight
+of the first state (three per record, three per connection): quiescence is always reached. -/
+theorem c19_listen_terminates (isEnd : κ → Bool) (mon : Monitor κ α) (futures : List (List (Measure κ α)))
+    (acts : List Act) (n' : Net κ α) (h : (Net.start mon futures).run isEnd acts = some n') :
+    acts.length ≤ (futures.map fun f => 3 * f.length + 3).sum := by
+  have := run_length isEnd acts _ n' h
+  have hw : (Net.start mon futures).weight = (futures.map fun f => 3 * f.length + 3).sum := by
+    simp only [Net.start, Net.weight, List.map_map]
+    congr 1
+  omega
+
+/-- the read-out of the simulation driver (`simul/build.go:146-175`: the global result set is logged,
+then header — first configuration only — and values are written for every result set): the line
+written for each result set is the line a single `WriteValues` would have written, and the result set
+is left as that single write would have left it -/
+theorem c19_build_readout (s : Stats κ α) (first : Bool) (j : Nat) :
+    s.readouts (buildReadouts first j) = s.readout .values := by
+  have h := (c19_readout_idempotent s ((buildReadouts first j).dropLast)).1
+  have hl : buildReadouts first j = (buildReadouts first j).dropLast ++ [Readout.values] := by
+    unfold buildReadouts; cases first <;> by_cases hj : j = 0 <;> simp [hj]
+  rw [hl]
+  show ((buildReadouts first j).dropLast ++ [Readout.values]).foldl Stats.readout s = _
+  rw [List.foldl_append]
+  exact h
+
 end anynumber
 
 section exact2
@@ -235,6 +288,35 @@ theorem c19_perm_invariant_monitor (m : Monitor κ K) (hg : SortedKeys m.global.
     intro b hbm
     simp only [Function.comp, feed_eq_updates]
     rw [c19_perm_invariant _ (hb b hbm) _ _ ((hp.filter _).map _)]
+
+/-- **c19_listen_reports_all**: the monitor over the network reports the statistics of what the
+clients recorded.  Start `Listen` with any clients and the records they are going to send; take any
+schedule until nothing is enabled; if every connection was accepted (no client came after all the
+others had left) then `Listen` has returned and the global result set and every bucket report exactly
+what they would report had the records of connection 0, then those of connection 1, … been fed one
+after the other — whatever the partition over connections and whatever the schedule. -/
+theorem c19_listen_reports_all (isEnd : κ → Bool) (m : Monitor κ K) (hg : SortedKeys m.global.vals)
+    (hb : ∀ b ∈ m.buckets, SortedKeys b.stats.vals) (futures : List (List (Measure κ K)))
+    (acts : List Act) (n' : Net κ K) (h : (Net.start m futures).run isEnd acts = some n')
+    (hq : n'.canMove isEnd = false) (hall : ∀ c ∈ n'.conns, c.accepted = true) :
+    (futures ≠ [] → n'.finished = true) ∧
+    n'.mon.global.report = (((futures.map (noEnd isEnd)).flatten).foldl Monitor.update m).global.report ∧
+    n'.mon.buckets.map (fun b => (b.idx, b.rules, b.stats.report)) =
+      (((futures.map (noEnd isEnd)).flatten).foldl Monitor.update m).buckets.map
+        (fun b => (b.idx, b.rules, b.stats.report)) := by
+  obtain ⟨_, q2, _, q4⟩ := c19_listen_nothing_stuck isEnd m futures acts n' h hq
+  have hdone : ∀ c ∈ n'.conns, c.remaining isEnd = [] := fun c hc => (q2 c hc (hall c hc)).2
+  obtain ⟨out, ho, hi⟩ := c19_listen_interleave isEnd m futures acts n' h hdone
+  have hp := interleave_perm _ _ hi
+  obtain ⟨p1, p2⟩ := c19_perm_invariant_monitor m hg hb out _ hp
+  refine ⟨?_, by rw [ho]; exact p1, by rw [ho]; exact p2⟩
+  intro hne
+  have hlen : n'.conns.length = futures.length := by
+    have := run_conns_length isEnd acts _ n' h
+    simpa [Net.start] using this
+  cases hc : n'.conns with
+  | nil => rw [hc] at hlen; exact absurd (List.length_eq_zero_iff.mp hlen.symm) hne
+  | cons c rest => exact q4 ⟨c, by rw [hc]; exact List.mem_cons_self, hall c (by rw [hc]; exact List.mem_cons_self)⟩
 
 end exact2
 
@@ -364,6 +446,25 @@ example : Interleave [[(1 : ℕ), 2], [3]] [1, 3, 2] := by
   have h2 : Interleave [[(2 : ℕ)], [3]] [3, 2] := .step [[2]] [] 3 [] [2] h1
   exact .step [] [[3]] 1 [2] [3, 2] h2
 
+/-- a schedule of the monitor with two clients (name 0 is the end marker): everything is enabled in
+turn, at the end nothing is enabled, every connection was accepted, `Listen` has returned — the
+hypotheses of `c19_listen_nothing_stuck` / `c19_listen_reports_all` can be met -/
+example : ∃ n', (Net.start ({ global := {} } : Monitor ℕ ℚ) [[⟨1, 5, 0⟩, ⟨0, 0, 0⟩], [⟨1, 7, 2⟩]]).run (· == 0)
+      [.accept 0, .accept 1, .write 0, .write 1, .decode 1, .write 0, .hangup 0, .decode 0, .deliver 1,
+       .deliver 0, .decode 0, .hangup 1, .eof 1, .eof 0] = some n' ∧
+    n'.canMove (· == 0) = false ∧ (∀ c ∈ n'.conns, c.accepted = true) ∧ n'.finished = true := by
+  refine ⟨_, rfl, ?_, ?_, ?_⟩ <;> decide
+
+/-- why `c19_listen_reports_all` asks that every connection was accepted: `Listen` returns as soon as
+all connections accepted *so far* have gone; a client that comes later is never served, its record
+(here the value 7 of connection 1) is in no result set although nothing is enabled any more -/
+theorem c19_listen_late_client_not_served :
+    ∃ n', (Net.start ({ global := {} } : Monitor ℕ ℚ) [[⟨1, 5, 0⟩], [⟨1, 7, 2⟩]]).run (· == 0)
+      [.accept 0, .write 0, .hangup 0, .decode 0, .deliver 0, .eof 0, .write 1, .hangup 1] = some n' ∧
+    n'.canMove (· == 0) = false ∧ n'.finished = true ∧
+    n'.conns.map (fun c => (c.remaining (· == 0)).length) = [0, 1] := by
+  refine ⟨_, rfl, ?_, ?_, ?_⟩ <;> decide
+
 example : rulesMatch [{ low := 2, high := 5 }] 4 = true ∧ rulesMatch [{ low := 2, high := 5 }] 5 = false ∧
     rulesMatch [{ low := -3, high := 5 }] (-1) = false := by decide
 
@@ -486,6 +587,41 @@ theorem c19_shape_monitor_measure_newSingleMeasureWithHost :
 theorem c19_shape_monitor_measure_singleMeasure_Record :
     Shapes.simul_monitor_measure_singleMeasure_Record =
    ["send"] := rfl
+
+theorem c19_shape_monitor_monitor_Monitor_InsertBucket :
+    Shapes.simul_monitor_monitor_Monitor_InsertBucket =
+   ["buckets.Set"] := rfl
+
+theorem c19_shape_monitor_bucket_stats_bucketRules_Match :
+    Shapes.simul_monitor_bucket_stats_bucketRules_Match =
+   ["if:(host<0)", "return:false", "if:rule.Match(host)", "return:true", "return:false"] := rfl
+
+theorem c19_shape_monitor_bucket_stats_newBucketRule :
+    Shapes.simul_monitor_bucket_stats_newBucketRule =
+   ["if:(len(parts)!=2)", "return:", "strconv.Atoi", "if:(err!=nil)", "return:", "strconv.Atoi",
+     "if:(err!=nil)", "return:", "return:"] := rfl
+
+theorem c19_shape_monitor_measure_ConnectSink :
+    Shapes.simul_monitor_measure_ConnectSink =
+   ["global.Lock", "defer:global.Unlock", "net.Dial", "json.NewEncoder"] := rfl
+
+theorem c19_shape_monitor_measure_send :
+    Shapes.simul_monitor_measure_send =
+   ["global.Lock", "defer:global.Unlock", "if:(global.connection==nil)",
+     "return:xerrors.New(\"\")", "encoder.Encode", "if:(err==nil)", "time.Duration",
+     "time.Sleep", "if:!ok", "return:xerrors.New(\"\")", "return:nil"] := rfl
+
+theorem c19_shape_monitor_measure_EndAndCleanup :
+    Shapes.simul_monitor_measure_EndAndCleanup =
+   ["newSingleMeasure", "send", "global.Lock", "defer:global.Unlock", "connection.Close"] := rfl
+
+theorem c19_shape_monitor_measure_RecordSingleMeasure :
+    Shapes.simul_monitor_measure_RecordSingleMeasure =
+   ["RecordSingleMeasureWithHost"] := rfl
+
+theorem c19_shape_monitor_measure_newSingleMeasure :
+    Shapes.simul_monitor_measure_newSingleMeasure =
+   ["newSingleMeasureWithHost"] := rfl
 
 
 end C19
